@@ -34,6 +34,11 @@
 //!                                                 pair of different lists must be refused:
 //!                                                 `same=<ok count> other_same_thread=<refused>/<tried>
 //!                                                 cross_thread=<refused>/<tried>`
+//!   @ byname <names> <order> <seed>               a tensor whose dimension names run together equally in
+//!                                                 different orders ("a","aa" / "r","rr" / "x","xy" /
+//!                                                 "a","b","ab" / the empty name) indexed, transposed and
+//!                                                 reordered by `order`: the answer must not depend on
+//!                                                 which by-name call (of colliding names) came before
 //!   @ naneq <seed>                                equality of f64 containers holding a NaN: `x == x`,
 //!                                                 `x == x.clone()`, `&x == &x`, view / tensor / matrix
 //!                                                 forms — every comparison must be `false`, whether the
@@ -593,6 +598,25 @@ fn crosslist(k: usize) -> String {
     format!("same={} other_same_thread={}/{} cross_thread={}/{}", same_ok, st_ref, st_all, ct_ref, ct_all)
 }
 
+fn byname(names: &[&'static str], order: &[&'static str], seed: u64) -> String {
+    let mut rng = Rng::new(seed);
+    crate::with_d!(names.len(), D => {
+        let shape: [(&'static str, usize); D] = std::array::from_fn(|i| (names[i], 2 + i));
+        let order: [&'static str; D] = names_array(order);
+        let n: usize = shape.iter().map(|d| d.1).product();
+        let t = Tensor::from(shape, (0..n).map(|i| i as f64 + (rng.below(8) as f64) / 8.0).collect());
+        let parts = vec![
+            show_shape(&t.index_by(order).shape()),
+            hexes(t.index_by(order).iter()),
+            show_tensor_bits(&t.transpose(order)),
+            show_tensor_bits(&t.reorder(order)),
+            dg(format!("{}", t.index_by(order))),
+            format!("{:?}", order.iter().map(|n| t.length_of(n)).collect::<Vec<_>>()),
+        ];
+        parts.join(" ¦ ")
+    })
+}
+
 fn naneq(seed: u64) -> String {
     let mut rng = Rng::new(seed);
     let mut data = values(&mut rng, 6);
@@ -753,6 +777,7 @@ impl Runner {
             "length" => length(num(2), num(3) as u64),
             "qr" => qr(num(2), num(3), num(4) as u64),
             "crosslist" => crosslist(num(2)),
+            "byname" => byname(&parse_names(toks[2]), &parse_names(toks[3]), num(4) as u64),
             "naneq" => naneq(num(2) as u64),
             "messages" => messages(num(2) as u64),
             "names" => names(toks[2], num(3) as u64),
@@ -827,6 +852,30 @@ pub fn gen(g: &mut Gen) {
             let seed = g.rng.next() % 1_000_000;
             g.count("qr");
             g.op(format!("@ qr {} {} {}", rows, cols, seed));
+        }
+    }
+    // names whose different orders run together to the same text; each request is a case of its
+    // own, so the execution modes (reverse order, fresh thread / process) change what came before
+    let sets: [&[&str]; 7] = [&["a", "aa"], &["r", "rr"], &["x", "xy"], &["a", "b", "ab"], &["rr", "r", "rrr"],
+        &["_empty_", "a"], &["ab", "a", "b"]];
+    for set in sets {
+        for _ in 0..(reps / 2).max(1) {
+            let seed = g.rng.next() % 1_000_000;
+            let d = set.len();
+            let mut orders: Vec<Vec<&str>> = vec![set.to_vec()];
+            for r in 1..d {
+                let mut o = set.to_vec();
+                o.rotate_left(r);
+                orders.push(o);
+            }
+            let mut swapped = set.to_vec();
+            swapped.swap(0, d - 1);
+            orders.push(swapped);
+            orders.push(set.to_vec());
+            for o in orders {
+                g.count("byname");
+                g.op(format!("@ byname {} {} {}", set.join(","), o.join(","), seed));
+            }
         }
     }
     for _ in 0..reps {
